@@ -14,6 +14,7 @@ multisets.
 import collections
 
 from yamlpath import Processor
+from yamlpath.common import Anchors
 from yamlpath.commands import yaml_paths
 from yamlpath.enums import PathSeparators
 from yamlpath.eyaml import EYAMLProcessor
@@ -81,7 +82,9 @@ def plan(tier):
     ]
     EXPRS = []
     terms = ("aa", "a", "1000", "15", "k", "a a", "a]", "it's", "a\\b") \
-        if tier != "quick" else ("aa", "a", "1000", "k", "a a", "it's")
+        if tier != "quick" else ("aa", "a", "1000", "k", "a a", "it's", "B")
+    if tier != "quick":
+        terms += ("B",)          # (the name of the merge pack's anchor)
     for op in ("=", "^", "$", "%", "<", ">", "<=", ">=", "=~"):
         for term in terms:
             for inv in (False, True):
@@ -228,12 +231,15 @@ def run_search(doc, expr, mode):
         return expression, None
     pathsep = PathSeparators.DOT if sep == "dot" else PathSeparators.FSLASH
     proc = EYAMLProcessor(corpus.LOG, doc, binary="eyaml")
+    # (the command hands in the document's anchors; so does the harness)
+    all_anchors = {}
+    Anchors.scan_for_anchors(doc, all_anchors)
     results = list(yaml_paths.search_for_paths(
         corpus.LOG, proc, doc, exterm, pathsep,
         search_values=(what != "keys"), search_keys=(what != "values"),
         search_anchors=False, include_key_aliases=ka,
         include_value_aliases=va, decrypt_eyaml=False,
-        expand_children=expand, all_anchors={}))
+        expand_children=expand, all_anchors=all_anchors))
     return expression, results
 
 
